@@ -484,6 +484,11 @@ class Parser:
             ps = []
             while not self.isp("|"):
                 ps.append(self.expect_id())
+                if self.isp(":"):
+                    self.eat()
+                    while not (self.isp(",") or self.isp("|")):
+                        if self.eat().kind == "EOF":
+                            self.err("bad closure parameter")
                 if self.isp(","):
                     self.eat()
             self.eat()
@@ -948,7 +953,9 @@ class Gen:
             if a[0] == "char":
                 if kind == "eat_if":
                     return ("m", "s_eat_if_char %d" % ord(a[1]))
-                self.fail(line, "s.%s(char) is outside the subset" % m)
+                # a char used as a Pattern matches exactly that char
+                return ("m", {"eat_while": "s_eat_while (N.eqb %d)", "eat_until": "s_eat_until_pred (N.eqb %d)",
+                              "at": "s_at_pred (N.eqb %d)"}[kind] % ord(a[1]))
             if a[0] == "str":
                 if kind in ("eat_if", "eat_until"):
                     return ("m", "s_%s_str %s" % (kind, cps(a[1])))
